@@ -505,6 +505,44 @@ def inline_module(tree: ast.Module, known: Optional[Set[str]]) -> ast.Module:
         fn._inl_cls = cls if cls is not None else getattr(enclosing[0], "_inl_cls", None) if enclosing else None  # type: ignore
         caller_cls = fn._inl_cls  # type: ignore
 
+        # bound-name aliases of helpers (`make = _helper` / `make = self._helper`, assigned once, only ever called): the call sites
+        # are calls of the helper; the alias statement goes away with them
+        import copy as _copy
+        alias_defs: Dict[str, List[ast.Assign]] = {}
+        stores: Dict[str, int] = {}
+        for x in ast.walk(fn):
+            if isinstance(x, ast.Name) and isinstance(x.ctx, (ast.Store, ast.Del)):
+                stores[x.id] = stores.get(x.id, 0) + 1
+            elif isinstance(x, ast.arg):
+                stores[x.arg] = stores.get(x.arg, 0) + 1
+        for x in ast.walk(fn):
+            if isinstance(x, ast.Assign) and len(x.targets) == 1 and isinstance(x.targets[0], ast.Name) and isinstance(x.value, (ast.Name, ast.Attribute)):
+                fake = ast.Call(func=x.value, args=[], keywords=[])
+                if lookup(_callee_key(fake, caller_cls, caller_self, enclosing + [fn]), caller_cls, enclosing + [fn]) is not None and stores.get(x.targets[0].id) == 1:
+                    alias_defs.setdefault(x.targets[0].id, []).append(x)
+        if alias_defs:
+            call_funcs = {id(c.func) for c in ast.walk(fn) if isinstance(c, ast.Call)}
+            loads = {}
+            for x in ast.walk(fn):
+                if isinstance(x, ast.Name) and isinstance(x.ctx, ast.Load) and x.id in alias_defs:
+                    loads.setdefault(x.id, []).append(x)
+            usable = {nm for nm in alias_defs if all(id(l) in call_funcs for l in loads.get(nm, []))}
+            if usable:
+                class _A(ast.NodeTransformer):
+                    def visit_Call(self, node):
+                        self.generic_visit(node)
+                        if isinstance(node.func, ast.Name) and node.func.id in usable:
+                            node.func = ast.copy_location(_copy.deepcopy(alias_defs[node.func.id][0].value), node.func)
+                        return node
+
+                    def visit_Assign(self, node):
+                        if any(node is d for nm in usable for d in alias_defs[nm]):
+                            return ast.copy_location(ast.Pass(), node)
+                        self.generic_visit(node)
+                        return node
+                _A().visit(fn)
+                ast.fix_missing_locations(fn)
+
         def rewrite_block(stmts: List[ast.stmt], budget: List[int]) -> List[ast.stmt]:
             out: List[ast.stmt] = []
             for st in stmts:
